@@ -194,6 +194,16 @@ func c11Objects(ps []geometry.Point) []geojson.Object {
 			out = append(out, geojson.NewMultiPolygon([]*geometry.Poly{geometry.NewPoly(ps[:3], nil, nil), geometry.NewPoly(ps, nil, nil)}))
 		}
 	}
+	// objects derived from other objects: translated copies (appended last:
+	// known findings refer to objects by index)
+	for _, d := range [][2]float64{{0, 0}, {1, -2}, {0.1, 0.3}} {
+		out = append(out, geojson.NewLineString(geometry.NewLine(ps, nil).Move(d[0], d[1])))
+		out = append(out, geojson.NewPolygon(geometry.NewPoly(ps, nil, nil).Move(d[0], d[1])))
+		if len(ps) >= 2 {
+			hole := geometry.NewPoly(ps, [][]geometry.Point{ps[1:]}, nil).Move(d[0], d[1])
+			out = append(out, geojson.NewMultiPolygon([]*geometry.Poly{hole}))
+		}
+	}
 	return out
 }
 
@@ -205,7 +215,7 @@ func runC11(r *rt.Run) {
 	}
 	r.Bounds["float_alphabet"] = len(A)
 	r.Bounds["sequence_depth_per_axis"] = depth
-	r.Rule = "every sequence of length 1..depth over a 22-value special-float alphabet (-0, +-5e-324, +-1, +-90 and +-180 with their 1-ulp neighbours, +-1e308, +-MaxFloat64) on one axis with the other fixed, on the other axis, and on both (second axis reversed); each realised as Point/SimplePoint/PointZ/Feature, LineString, Polygon, MultiPoint, Rect, GeometryCollection (incl. empties mixed with non-empties), FeatureCollection, MultiLineString, MultiPolygon; plus every object of the C09 pool; rect = direct min/max over non-empty parts, centre = exactly rounded midpoint, valid = every position in range, empty = no part occupies space; non-trivial = non-empty object"
+	r.Rule = "every sequence of length 1..depth over a 22-value special-float alphabet (-0, +-5e-324, +-1, +-90 and +-180 with their 1-ulp neighbours, +-1e308, +-MaxFloat64) on one axis with the other fixed, on the other axis, and on both (second axis reversed); each realised as Point/SimplePoint/PointZ/Feature, LineString, Polygon, MultiPoint, Rect, GeometryCollection (incl. empties mixed with non-empties), FeatureCollection, MultiLineString, MultiPolygon, and as LineString / Polygon / MultiPolygon obtained through Move by (0,0), (1,-2), (0.1,0.3); plus every object of the C09 pool; rect = direct min/max over non-empty parts, centre = exactly rounded midpoint, valid = every position in range, empty = no part occupies space; non-trivial = non-empty object"
 	r.Assume = []string{"Circle objects are excluded (their rect/validity are the polygon's; C13)", "midpoint reference computed in 2200-bit arithmetic and rounded once"}
 	n := len(A)
 	r.ParFor(n*3, func(i int, w *rt.Worker) {
